@@ -201,6 +201,7 @@ pub fn run_job(job: &Value, slot: u32, serial: u32, progress: &Progress) -> JobO
         )
     });
     let t0 = Instant::now();
+    let threads_before = count_threads();
     let nhosts = cfgs.len();
     let mut handles = vec![];
     for (h, cfg) in cfgs.into_iter().enumerate() {
@@ -313,6 +314,19 @@ pub fn run_job(job: &Value, slot: u32, serial: u32, progress: &Progress) -> JobO
         std::thread::sleep(Duration::from_millis(2));
     };
     let unwind_s = t1.elapsed().as_secs_f64();
+    // C04 "all worker and network threads exit": the thread count of the process must come back to what it
+    // was before the job (multiplexer / demultiplexer / listener threads have no hook of their own)
+    let t2 = Instant::now();
+    let threads_leaked = loop {
+        let n = count_threads();
+        if n <= threads_before {
+            break 0;
+        }
+        if t2.elapsed() > Duration::from_millis(job["threads_ms"].as_u64().unwrap_or(3000)) {
+            break n - threads_before;
+        }
+        std::thread::sleep(Duration::from_millis(5));
+    };
     progress.in_job.store(false, Ordering::SeqCst);
     let wall = t0.elapsed().as_secs_f64();
     let total = session.rec.count.load(Ordering::Relaxed);
@@ -320,10 +334,16 @@ pub fn run_job(job: &Value, slot: u32, serial: u32, progress: &Progress) -> JobO
     let panics = std::mem::take(&mut *PANIC_LOG.lock());
     let result = json!({"id": id, "hosts": hosts, "nhosts": nhosts, "wall_s": wall, "events": total,
         "panics": panics, "lingering": lingering, "unwind_s": unwind_s,
-        "gate_timeouts": turns_stat.timeouts.load(Ordering::Relaxed)});
+        "gate_timeouts": turns_stat.timeouts.load(Ordering::Relaxed),
+        "threads_leaked": threads_leaked, "threads_before": threads_before});
     JobOutcome { result, events }
 }
 
+
+/// Number of threads of this process (Linux: entries of /proc/self/task).
+fn count_threads() -> u64 {
+    std::fs::read_dir("/proc/self/task").map(|d| d.count() as u64).unwrap_or(0)
+}
 
 /// `vh graph`: the execution graph of a program as every host of a configuration derives it.
 pub fn graph_case(case: &Value, slot: u32, serial: u32) -> Value {
